@@ -198,19 +198,20 @@ def _scalar_positions(flavour, extra_opts, client_kw):
                 fails.append(dict(inputs=dict(scenario=name), failed=bad, outcome=None))
 
         full = {"event": {"id": "1", "at": "fa", "when": "w", "maybe": None, "times": ["t1", "t2"], "grid": [["g1", None], []], "tag": "x", "plain": 5, "code": "c1",
-                          "loose": {"any": [1]}, "inner": {"when": "iw", "maybe": "im"}}}
+                          "loose": {"any": [1, 0.1]}, "inner": {"when": "iw", "maybe": 0.1}}}
 
         def read_full(res):
             e = res.event
             want = dict(at=S("P:fa"), when=S("P:w"), maybe=None, times=[S("P:t1"), S("P:t2")], grid=[[S("P:g1"), None], []], tag="tag:x", plain=5,
-                        loose={"any": [1]})
+                        loose={"any": [1, 0.1]})
             bad = [k for k, v in want.items() if getattr(e, k) != v]
             if not isinstance(e.code, hm.Code) or e.code.v != "c1":
                 bad.append("code")
-            if e.inner.when != S("P:iw") or e.inner.maybe != S("P:im"):
+            if e.inner.when != S("P:iw") or e.inner.maybe != S("P:0.1") or type(e.loose["any"][1]) is not float:
                 bad.append("inner")
             return bad
-        parses_full = [("parse_stamp", x) for x in ("fa", "w", "t1", "t2", "g1", "iw", "im")] + [("parse_tag", "x"), ("parse_code", "c1")]
+        # (a fractional JSON number reaches parse / the user as the float the JSON decoder yields)
+        parses_full = [("parse_stamp", x) for x in ("fa", "w", "t1", "t2", "g1", "iw", 0.1)] + [("parse_tag", "x"), ("parse_code", "c1")]
         # (nullable top-level variables of a scalar with serializer are the recorded finding F05 and have their own witness)
         scenario("results-all-positions/required-variables-only", "get_event", dict(after=S("a"), tag="tg"), full,
                  {"after": "S:a", "tag": "out:tg"}, [("ser_stamp", S("a")), ("ser_tag", "tg")], parses_full, read_full)
